@@ -126,6 +126,11 @@ def generate(tier, seed):
     for h in holders:
         for u in users:
             reqs.append(h % u)
+    import string as _st
+    for ch in _st.ascii_letters + _st.digits + "%$#@!*-+. ,:;<>()[]{}^&|~'?/_=":
+        for a in ["65", "55296", "57343", "1114111", "1114112", "-1", "0", "9223372036854775807", "-9223372036854775808", "2.5", "-2.7", "-0.5", '"s"', "'sym", "nil", "'(1 2)", ":k"]:
+            reqs.append('(format "<%%%s>" %s)' % (ch.replace("\\", "\\\\").replace('"', '\\"'), a))
+        reqs.append('(format "<%%%s>")' % ch.replace('"', '\\"'))
     # random programs with extreme numerals
     for _ in range(5000 if tier == "quick" else 200000):
         g = ProgGen(rng, max_depth=3, ticks=False, loops=False)   # literal replacement must not touch loop bounds
